@@ -120,12 +120,18 @@ def heading_jobs(ctx, rng, sample=400):
 def build_jobs(ctx, rng, two_block_sample=2600):
     """All (document, format) pairs of the suite for this tier."""
     shapes1 = gen_shapes(ctx, 1, True)
-    shapes2 = [s for s in gen_shapes(ctx, 2, False) if len(s) == 2]
+    shapes2 = [s for s in gen_shapes(ctx, 2, bool(ctx.thorough)) if len(s) == 2]
+    shapes3 = []
     if not ctx.thorough:
         rng.shuffle(shapes2)
         shapes2 = shapes2[:two_block_sample]
+    else:
+        # thorough: all 2-block documents over the rich shape set, plus a seeded sample of 3-block documents
+        shapes3 = [s for s in gen_shapes(ctx, 3, False) if len(s) == 3]
+        rng.shuffle(shapes3)
+        shapes3 = shapes3[:12000]
     docs = []
-    for k, sh in enumerate(shapes1 + shapes2):
+    for k, sh in enumerate(shapes1 + shapes2 + shapes3):
         blocks, nxt = number_blocks(sh, 1)
         hdr = [["r", nxt]] if k % 3 == 0 else []
         ftr = [["r", nxt + 1]] if k % 3 == 1 else []
